@@ -277,6 +277,7 @@ impl Prop for C19 {
                     Action::ModIdentity => "delivered.mod_identity",
                     Action::ModScale(_) => "delivered.mod_scale",
                     Action::ModPerturb(_) => "delivered.mod_perturb",
+                    Action::XOut(_) => "delivered.xout",
                 });
             }
             if cov.samples.len() < 4 {
@@ -309,7 +310,7 @@ impl Prop for C19 {
         // --- ModifiedSolution: the very next crossing is ode(x_k, w) (BDF: then jac(x_k, w))
         if !o.st.truncated {
             for (k, a) in sc.actions.iter() {
-                if *k >= o.cbs.len() || matches!(a, Action::Interrupt) {
+                if *k >= o.cbs.len() || matches!(a, Action::Interrupt | Action::XOut(_)) {
                     continue;
                 }
                 if sc.actions.iter().any(|(k2, a2)| *a2 == Action::Interrupt && k2 < k) {
